@@ -546,7 +546,12 @@ type c34Case struct {
 	expect bool // the request carries Expect: 100-continue
 }
 
-func c34ClientObserve(resp *http.Response, err error, cp c34ReadPlan) string {
+// c34ClientObserve reads the response according to the plan. beforeClose (may be nil) runs after the
+// response has been read and before Response.Body.Close: Close resets the request stream
+// ("how the caller signals that they're done with a request"), which cancels a request body that is
+// still being uploaded or not yet read by the handler — a cancellation by the caller, outside C34.
+// The end-to-end rig therefore waits for the handler to return before it closes.
+func c34ClientObserve(resp *http.Response, err error, cp c34ReadPlan, beforeClose func()) string {
 	if err != nil {
 		if os.Getenv("VERIF_C34_DEBUG") != "" {
 			fmt.Fprintf(os.Stderr, "C34 debug: RoundTrip error: %v\n", err)
@@ -557,6 +562,9 @@ func c34ClientObserve(resp *http.Response, err error, cp c34ReadPlan) string {
 	tr := "-"
 	if end == "eof" {
 		tr = c34ShowHL(resp.Trailer)
+	}
+	if beforeClose != nil {
+		beforeClose()
 	}
 	resp.Body.Close()
 	return fmt.Sprintf("ok %d %d %s %s %s %s", resp.StatusCode, resp.ContentLength, c34ShowHL(resp.Header), c34HexOrDash(body), end, tr)
@@ -634,7 +642,13 @@ func (rig *c34Rig) e2e(c c34Case, method, path string, cl int, nobody bool, h []
 		}
 	}
 	resp, rerr := cc.RoundTrip(req)
-	cres := c34ClientObserve(resp, rerr, c.cp)
+	cres := c34ClientObserve(resp, rerr, c.cp, func() {
+		// a response came back, so the handler was invoked: let it finish with the request
+		select {
+		case <-done:
+		case <-ctx.Done():
+		}
+	})
 	// Wait for the handler (it may still be running when RoundTrip failed early).
 	synctest.Wait()
 	finished := false
@@ -1098,7 +1112,7 @@ func (rig *c34Rig) rawResp(c c34Case, method string, status int, clStr string, t
 	}()
 	req, _ := http.NewRequestWithContext(ctx, method, "https://example.tld/raw", nil)
 	resp, rerr := dr.cc.RoundTrip(req)
-	cres := c34ClientObserve(resp, rerr, c.cp)
+	cres := c34ClientObserve(resp, rerr, c.cp, nil)
 	f := strings.Fields(cres)
 	if len(f) != 7 {
 		o.Fail("rawresp-not-delivered", cres)
